@@ -1,5 +1,6 @@
 import HidVerif.Proofs.ExitModes
 import HidVerif.Proofs.Terminal
+import HidVerif.Proofs.CoreMain
 /-!
 # C16 — control never runs off the end of a function
 
@@ -11,7 +12,7 @@ validated by the VM monitor: the program counter never reaches a function entry 
 through.
 -/
 namespace HidVerif.Props.C16
-open HidVerif.Hid.Exit
+open HidVerif HidVerif.Hid.Exit
 
 /-- (a) a well-formed block whose exit modes lack `NONE` never completes normally -/
 theorem analysis_sound (s : Skel) (hb : blockish s = true) (hw : wf s = true)
@@ -35,5 +36,37 @@ example : ¬ Exits (.block [.loop true (.block [.other]) (.block []), .other]) .
 /-- non-vacuity in the other direction: a loop with a reachable break does complete -/
 example : Exits (.block [.loop true (.block [.brk]) (.block [])]) .normal :=
   .blockNext (.loopBreak (.blockStop .brk (by decide))) .blockNil
+
+/-! ## (d) on the verified core: the machine-level statement
+
+In `Core.coreProg` the functions of a program follow each other in the code section, so "never
+runs off the end" is a statement about addresses.  It is proved as part of
+`C01.core_semantic_preservation` (the committed run performs exactly the source trace and ends in
+the terminal loop — it can therefore never continue into the next function); the two facts it
+rests on are stated here. -/
+
+/-- the entry point of a core program (to which the front end has appended `return;` where
+needed: `noFall`, part of `wfProg`) never completes by falling off its end -/
+theorem core_entry_never_falls_off (cf : Core.Config) (args : List Int) (pr : Core.CProg) (hwf : Core.wfProg pr = true)
+    (fuel : Nat) (env' : Core.Env) (tr : List Ev) (res : Core.Res)
+    (hex : Core.srcRun cf fuel args pr = some (env', tr, res)) : res ≠ .norm :=
+  Core.exec_noFall _ _ _ _ _ _ _ _ _ _ _ _ (Core.wfProg_parts hwf).2.2.2.1 hex
+
+/-- every activation of a core function whose body does not fall through ends at the return
+address its caller stored, with the caller's frame intact (instance of `C08.core_scope_exit…`
+for `return` / `return e`) -/
+theorem core_activation_returns_to_caller {p : Sphinx.Prog} {ck : Bool} {B : Nat} {fa : Core.FAddr} {fns : List Core.FDecl}
+    (lib : Sphinx.Placed p B) (fok : Core.FnsOK p ck B fa fns) (fuel F D ra : Nat) (hra : ra < 256 ^ p.w)
+    (s : Core.S) (Γ : Core.Gam) (env : Core.Env) (pc o : Nat) (m : Sphinx.Mem) (env' : Core.Env) (tr : List Ev) (res : Core.Res)
+    (hpl : Sphinx.PlacedAt p pc (Core.cS (Core.cxOf p ck B) fa Γ pc o s))
+    (hB : pc + (Core.cS (Core.cxOf p ck B) fa Γ pc o s).length ≤ B)
+    (hinv : Core.SInv p Γ env m F D o ra) (hd : Core.Disj p.w Γ) (hwf : Core.wfS (Γ.map Prod.fst) s = true)
+    (hpk : Core.pkS p.w o s ≤ D) (ho : p.w ≤ o) (hnt : Core.noTry s = true)
+    (hex : Core.exec (256 ^ p.w) (8 * p.w) fns p.w fuel D o env s = some (env', tr, res))
+    (hres : res = .returned ∨ ∃ v, res = .retv v) :
+    ∃ st', PSys.Reach (Sphinx.sphinx p) ⟨pc, m⟩ tr st' ∧ st'.pc = ra ∧ Core.Keep p.w m st'.mem F := by
+  obtain ⟨st', r, k, _, _, h2⟩ := Core.core_frame_restored lib fok fuel F D ra hra s Γ env pc o m env' tr res hpl hB hinv hd
+    hwf hpk ho hnt hex (Or.inr hres)
+  exact ⟨st', r, h2 (by rcases hres with h | ⟨v, h⟩ <;> subst h <;> simp), k⟩
 
 end HidVerif.Props.C16
